@@ -3,6 +3,7 @@
 package model3d
 
 import (
+	"math"
 	"github.com/unixpickle/model3d/internal/vp"
 )
 
@@ -81,5 +82,36 @@ func VP_C10_SubdivideEdges() {
 		return v
 	}
 	vp.AssertNear(vol(res), vol(m), 1e-9, "edge subdivision leaves the enclosed volume unchanged")
+	vp.Reach("end")
+}
+
+// VP_C10_DivideSegment: the points SubdivideEdges places on an edge do not
+// depend on the direction in which a triangle passes the edge (otherwise the
+// two triangles sharing it crack apart): divideSegment(a,b) is the exact
+// (bit-identical) reverse of divideSegment(b,a) for symbolic float64 ends,
+// including ends that differ in one coordinate only.
+func VP_C10_DivideSegment() {
+	n := vp.Param("n")
+	a, b := vpPoint("a"), vpPoint("b")
+	switch vp.Param("equal") {
+	case 1: // ends differ in z only
+		b.X, b.Y = a.X, a.Y
+	case 2: // ends differ in y and z only
+		b.X = a.X
+	}
+	for _, x := range []float64{a.X, a.Y, a.Z, b.X, b.Y, b.Z} {
+		vp.Assume(x >= -1000 && x <= 1000)
+	}
+	vp.Assume(vp.Any(a.X != b.X, a.Y != b.Y, a.Z != b.Z)) // an edge has two different ends
+	fwd, bwd := make([]Coord3D, n+1), make([]Coord3D, n+1)
+	divideSegment(a, b, fwd)
+	divideSegment(b, a, bwd)
+	same := func(p, q Coord3D) bool {
+		return vp.All(math.Float64bits(p.X) == math.Float64bits(q.X), math.Float64bits(p.Y) == math.Float64bits(q.Y), math.Float64bits(p.Z) == math.Float64bits(q.Z))
+	}
+	for i := range fwd {
+		vp.Assert(same(fwd[i], bwd[n-i]), "the subdivision points of an edge are the same from both ends")
+	}
+	vp.Assert(vp.And(same(fwd[0], a), same(fwd[n], b)), "the ends are kept exactly")
 	vp.Reach("end")
 }
